@@ -256,8 +256,8 @@ Definition builtin (name : string) (args : list val) (kws : list (string * val))
   | "np.sum" | "sum" => Some (match args with [a] => do l <- as_list a; vsum_l l w | _ => Exc "TypeError" end)
   | "np.zeros_like" => Some (pure_ (match args with [a] => do l <- as_list a; Ok (VList (map (fun _ => VNum (Fin 0)) l)) | _ => Exc "TypeError" end) w)
   | "np.ones_like" => Some (pure_ (match args with [a] => do l <- as_list a; Ok (VList (map (fun _ => VNum (Fin 1)) l)) | _ => Exc "TypeError" end) w)
-  | "min" | "np.min" => Some (pure_ (match args with [a] => do l <- as_list a; fold_num Rmin l | _ => Stuck "min: arity" end) w)
-  | "max" | "np.max" => Some (pure_ (match args with [a] => do l <- as_list a; fold_num Rmax l | _ => Stuck "max: arity" end) w)
+  | "min" | "np.min" => Some (pure_ (match args with [a] => do l <- as_list a; fold_num Rmin l | _ :: _ :: _ => fold_num Rmin args | _ => Stuck "min: arity" end) w)
+  | "max" | "np.max" => Some (pure_ (match args with [a] => do l <- as_list a; fold_num Rmax l | _ :: _ :: _ => fold_num Rmax args | _ => Stuck "max: arity" end) w)
   | "isinstance" => Some (pure_ (match args with
                      | [VList _; VMod "list"] => Ok (VBool true) | [_; VMod "list"] => Ok (VBool false)
                      | [VInt _; VMod "int"] => Ok (VBool true) | [VBool _; VMod "int"] => Ok (VBool true) | [_; VMod "int"] => Ok (VBool false)
